@@ -28,13 +28,13 @@ theorem statFileType_mask (mode : Nat) : statFileType mode = statFileType (mode 
 
 /-! ## page loop -/
 
-theorem pagesEqual_eq (p : Nat) (hp : 0 < p) : ∀ fuel (a b : List Nat), a.length = b.length →
+theorem pagesEqual_eq (p : Nat) (hp : 0 < p) : ∀ fuel (a b : List Nat),
     a.length < fuel → pagesEqual p fuel a b = decide (a = b) := by
   intro fuel
   induction fuel with
-  | zero => intro a b _ h; omega
+  | zero => intro a b h; omega
   | succ fuel ih =>
-    intro a b hlen hf
+    intro a b hf
     unfold pagesEqual
     simp only
     by_cases hca : a.take p = []
@@ -44,40 +44,60 @@ theorem pagesEqual_eq (p : Nat) (hp : 0 < p) : ∀ fuel (a b : List Nat), a.leng
         · omega
         · exact h
       subst ha
-      have hb : b = [] := List.eq_nil_of_length_eq_zero hlen.symm
-      subst hb
-      simp
+      cases b with
+      | nil => simp
+      | cons y ys =>
+        have : (y :: ys).take p ≠ [] := by
+          intro h
+          rcases List.take_eq_nil_iff.1 h with h | h
+          · omega
+          · cases h
+        simp [this]
     · rw [if_neg hca]
-      have hl : (b.take p).length = (a.take p).length := by
-        simp [List.length_take, hlen]
       by_cases hne : a.take p = b.take p
-      · rw [if_neg (by simp [hl, hne])]
+      · rw [if_neg (by simp [hne])]
         have hapos : 0 < a.length := by
           cases a with
           | nil => simp at hca
           | cons x xs => simp
-        rw [ih _ _ (by simp [List.length_drop, hlen]) (by simp [List.length_drop]; omega)]
+        rw [ih _ _ (by simp [List.length_drop]; omega)]
         have : (a.drop p = b.drop p) ↔ a = b := by
           constructor
           · intro h
             rw [← List.take_append_drop p a, ← List.take_append_drop p b, hne, h]
           · intro h; rw [h]
         simp [this]
-      · rw [if_pos (Or.inr hne)]
+      · have hor : (b.take p).length ≠ (a.take p).length ∨ a.take p ≠ b.take p := Or.inr hne
+        rw [if_pos hor]
         have : a ≠ b := fun h => hne (by rw [h])
         simp [this]
+
+/-- Whatever sizes are reported, as long as each is the true length or zero. -/
+theorem fileEqualsSized_eq (a b : List Nat) (sa sb page : Nat) (hp : 0 < page) (allocOk : Bool)
+    (ha : sa = a.length ∨ sa = 0) (hb : sb = b.length ∨ sb = 0) :
+    fileEqualsSized a b sa sb false page allocOk = decide (a = b) := by
+  unfold fileEqualsSized
+  simp only [Bool.false_eq_true, if_false]
+  by_cases hc : sa = sb ∨ sa = 0 ∨ sb = 0
+  · rw [if_pos hc]
+    apply pagesEqual_eq _ _ _ _ _ (by omega)
+    cases allocOk <;> simp [hp]
+  · rw [if_neg hc]
+    have : a ≠ b := by
+      intro h
+      subst h
+      apply hc
+      rcases ha with ha | ha
+      · rcases hb with hb | hb
+        · left; omega
+        · right; right; exact hb
+      · right; left; exact ha
+    simp [this]
 
 theorem fileEquals_some (a b : List Nat) (page : Nat) (hp : 0 < page) (allocOk : Bool) :
     fileEquals (some a) (some b) false page allocOk = decide (a = b) := by
   unfold fileEquals
-  simp only [Bool.false_eq_true, if_false]
-  by_cases hlen : a.length = b.length
-  · rw [if_pos hlen]
-    apply pagesEqual_eq _ _ _ _ _ hlen (by omega)
-    cases allocOk <;> simp [hp]
-  · rw [if_neg hlen]
-    have : a ≠ b := fun h => hlen (by rw [h])
-    simp [this]
+  exact fileEqualsSized_eq a b _ _ page hp allocOk (Or.inl rfl) (Or.inl rfl)
 
 
 
